@@ -160,7 +160,7 @@ def run_config(mon: Monitor, cfg, workdir: str) -> None:
     ydim, xdim = gb.dimensions
     dims = {"YX": (ydim, xdim), "SYX": ("band", ydim, xdim), "YXS": (ydim, xdim, "band")}[layout]
     cy, cx = cfg["chunks"]
-    chunks = {"YX": (cy, cx), "SYX": (cfg["band_chunk"], cy, cx), "YXS": (cy, cx, ns)}[layout]
+    chunks = {"YX": (cy, cx), "SYX": (cfg["band_chunk"], cy, cx), "YXS": (cy, cx, cfg["band_chunk"])}[layout]  # pixel-interleaved sources may be split along the sample axis too
     attrs = {} if nodata is None else {"nodata": nodata}
     xx = xr.DataArray(da.from_array(data, chunks=chunks), dims=dims, coords=xr_coords(gb), attrs=attrs)
     kw = dict(compression=cfg["compression"], stats=cfg["stats"], bigtiff=cfg["bigtiff"])
@@ -387,6 +387,9 @@ CONFIG_WATCHDOG_S = 300
 WRITE_BOUND = 2_000_000
 
 PINNED = [
+    # pixel-interleaved source split along the sample axis, spatial chunks equal to the (default) tile (C05-4)
+    dict(ny=64, nx=96, layout="YXS", ns=3, dtype="uint8", chunks=[32, 32], band_chunk=1, nodata=None, blocksize=None, compression="deflate", predictor=None, spill_sz=None, writes_per_chunk=None, stats=True, bigtiff=True, scheduler="sync", workers=2, order_seed=21, data_seed=21, crs="EPSG:3857"),
+    dict(ny=70, nx=40, layout="YXS", ns=4, dtype="int16", chunks=[16, 16], band_chunk=1, nodata=-9999, blocksize=[16], compression="zstd", predictor=None, spill_sz=1024, writes_per_chunk=2, stats=False, bigtiff=True, scheduler="threads", workers=4, order_seed=22, data_seed=22, crs="EPSG:4326"),
     # fewer full-resolution tiles than overview tiles (sub-stream grouping by size instead of by level would put full-resolution data first: C05-3)
     dict(ny=256, nx=256, layout="YX", ns=1, dtype="uint8", chunks=[128, 128], band_chunk=1, nodata=None, blocksize=[128, 32], compression="deflate", predictor=None, spill_sz=None, writes_per_chunk=None, stats=True, bigtiff=True, scheduler="sync", workers=2, order_seed=19, data_seed=19, crs="EPSG:3857"),
     dict(ny=200, nx=150, layout="SYX", ns=2, dtype="int16", chunks=[64, 64], band_chunk=1, nodata=None, blocksize=[128, 16], compression="zstd", predictor=None, spill_sz=4096, writes_per_chunk=2, stats=False, bigtiff=True, scheduler="threads", workers=4, order_seed=20, data_seed=20, crs="EPSG:32633"),
